@@ -2,4 +2,4 @@ package main
 
 import "verifharness/c03"
 
-func init() { runners["C03"] = c03.Run }
+func init() { runners["C03"] = c03.Run; facts["C03"] = c03.Facts }
